@@ -382,8 +382,19 @@ func (b *Builder) findRegistryPackageSource(ctx context.Context, sourceAddr sour
 		}
 	}
 
-	selectedVersion := availableVersions.NewestInSet(allowedVersions)
-	if selectedVersion == versions.Unspecified {
+	// The newest allowed version is looked for here rather than with
+	// List.NewestInSet, which starts out from the zero version and so can
+	// never report 0.0.0 or one of its pre-releases as the result.
+	selectedVersion, found := versions.Unspecified, false
+	for _, v := range availableVersions {
+		if !allowedVersions.Has(v) {
+			continue
+		}
+		if !found || v.GreaterThan(selectedVersion) {
+			selectedVersion, found = v, true
+		}
+	}
+	if !found {
 		return sourceaddrs.RemoteSource{}, fmt.Errorf("no available version of %s matches the specified version constraint", pkgAddr)
 	}
 
